@@ -1638,8 +1638,11 @@ R SoPlexBase<R>::coefReal(int row, int col) const
 {
    if(_realLP->isScaled())
    {
-      assert(_scaler);
-      return _scaler->getCoefUnscaled(*_realLP, row, col);
+      // unscale through the LP itself: _scaler is a null pointer once the scaler parameter has been switched off,
+      // while a persistently scaled LP stays scaled
+      DSVectorBase<R> colvec;
+      _realLP->getColVectorUnscaled(col, colvec);
+      return colvec[row];
    }
    else
       return colVectorRealInternal(col)[row];
@@ -1659,14 +1662,9 @@ void SoPlexBase<R>::getRowVectorReal(int i, DSVectorBase<R>& row) const
 {
    assert(_realLP);
 
-   if(_realLP->isScaled())
-   {
-      assert(_scaler);
-      row.setMax(_realLP->rowVector(i).size());
-      _scaler->getRowUnscaled(*_realLP, i, row);
-   }
-   else
-      row = _realLP->rowVector(i);
+   // unscale through the LP itself like getColVectorReal(): _scaler is a null pointer once the scaler parameter has
+   // been switched off, while a persistently scaled LP stays scaled
+   _realLP->getRowVectorUnscaled(i, row);
 }
 
 
